@@ -435,6 +435,11 @@ func parseCase(line string) (wk, ck int, script []opSpec, ok bool) {
 }
 
 func run(e *hk.Env) error {
+	// three goroutines per run: more Ps only make the scheduler spin on a busy machine
+	if os.Getenv("GOMAXPROCS") == "" && runtime.NumCPU() > 4 {
+		runtime.GOMAXPROCS(4)
+	}
+	e.Stats["gomaxprocs"] = runtime.GOMAXPROCS(0)
 	// quick alphabet: (isString, n, reported, err)
 	alpha := []opSpec{
 		{false, 2, 2, false}, {false, 2, 1, true}, {false, 2, 0, true}, {false, 0, 0, false},
